@@ -126,10 +126,9 @@ impl LanguageServer {
             line: 0,
             character: 0,
         };
-        let end_position = Position {
-            line: new_text.lines().count() as u32,
-            character: new_text.chars().count() as u32,
-        };
+        // The edit replaces the whole *current* document, so its range ends at the end of
+        // the current text (not of the new text, which may have fewer lines).
+        let end_position = end_of_document(text);
 
         let result = vec![lsp_types::TextEdit {
             range: lsp_types::Range::new(start_position, end_position),
@@ -219,6 +218,25 @@ impl LanguageServer {
         let diagnostics = PublishDiagnosticsParams::new(uri.clone(), diagnostics, None);
         (self.send_diagnostics_callback)(diagnostics);
     }
+}
+
+/// The position just past the last character of `text`, as the LSP specification counts:
+/// lines end at `\n`, `\r\n` or `\r`, and `character` is in UTF-16 code units.
+fn end_of_document(text: &str) -> Position {
+    let mut line = 0;
+    let mut character = 0;
+    let mut chars = text.chars().peekable();
+
+    while let Some(ch) = chars.next() {
+        if ch == '\n' || (ch == '\r' && chars.peek() != Some(&'\n')) {
+            line += 1;
+            character = 0;
+        } else if ch != '\r' {
+            character += ch.len_utf16() as u32;
+        }
+    }
+
+    Position { line, character }
 }
 
 pub fn run() {
